@@ -243,7 +243,8 @@ fn build_type(
     // might be better to do it in semantic?
     let associated_functions_impl = associated_functions
         .iter()
-        .filter(|f| !f.is_internal())
+        // a forwarder renamed after a `_`-prefixed base field is still a public function
+        .filter(|f| !f.is_internal() || f.body.is_field())
         .map(|f| build_function(regions, f))
         .collect::<anyhow::Result<Vec<_>>>()?;
 
